@@ -53,18 +53,20 @@ func (x *Exec) gobCopy(s *State, v Value, t types.Type) Value {
 		return out
 	case *types.Pointer:
 		p := x.normPtr(v.(*PtrVal))
-		if len(p.Alts) != 1 {
-			x.fail("gob copy of a pointer with %d possible targets", len(p.Alts))
+		out := &PtrVal{}
+		for _, a := range p.Alts {
+			if a.Obj == 0 {
+				out.Alts = append(out.Alts, PtrAlt{G: a.G, Obj: 0})
+				continue
+			}
+			ev, ok := x.load(s, &PtrVal{Alts: []PtrAlt{{G: x.tb.True, Obj: a.Obj, Path: a.Path}}}, ut.Elem())
+			if !ok {
+				return x.nilPtr()
+			}
+			id := x.newObj(x.gobCopy(s, ev, ut.Elem()), s)
+			out.Alts = append(out.Alts, PtrAlt{G: a.G, Obj: id})
 		}
-		if p.Alts[0].Obj == 0 {
-			return x.nilPtr()
-		}
-		ev, ok := x.load(s, p, ut.Elem())
-		if !ok {
-			return x.nilPtr()
-		}
-		id := x.newObj(x.gobCopy(s, ev, ut.Elem()), s)
-		return x.ptrTo(id)
+		return out
 	case *types.Slice:
 		sl := v.(*SliceVal)
 		if !sl.Len.IsConst() {
